@@ -446,7 +446,7 @@ var (
 	plainKeys   = []string{"a", "b", "c", "d", "id", "name", "x", "y"}
 	awkwardKeys = []string{"", "a/b", "~t", "0", "-", "ü", "k e", "a~1b", "1e3", "true", "null", "a.b", "\"q\"", "<<"}
 	plainStrs   = []string{"a", "b", "c", "foo", "bar", "x y", "50%"}
-	awkwardStrs = []string{"the quick brown fox jumps over the lazy dog and keeps on running far beyond the eightieth column of the page", "90%", "%s %d %v", "100%!", "line one\nline two\n", "tail\n", strings.Repeat("日本語のテキスト", 5), strings.Repeat("Привет мир ", 4), strings.Repeat("é", 70), "", "\"", "\\", "\n", "\t", "\u0001", "é", "日本", "😀", "<>&", "a\nb", "true", "1", "1e3", "~", "null", "- x", "a: b", "#", " lead", "trail ", "@ [", "+ 1", "^ {}"}
+	awkwardStrs = []string{"the quick brown fox jumps over the lazy dog and keeps on running far beyond the eightieth column of the page", "90%", "%s %d %v", "100%!", "line one\nline two\n", "tail\n", strings.Repeat("日本語のテキスト", 5), strings.Repeat("Привет мир ", 4), strings.Repeat("é", 70), "", "\"", "\\", "\n", "\t", "\u0001", "é", "日本", "😀", "<>&", "a\nb", "true", "1", "1e3", "~", "null", "- x", "a: b", "#", " lead", "trail ", "@ [", "+ 1", "^ {}", "next\u0085line", "del\u007f", "\u2028sep", "c1\u009f", "\ufffe", "bom\ufeff"}
 	symbols     = []float64{1, 2, 3}
 )
 
